@@ -98,6 +98,11 @@ func (w *World) monFlow(n *node, kind string, in *pb.Message, pre, post *raft.Ve
 			}
 			s.sent = append(s.sent, inflightRec{c.GetIndex() + uint64(len(c.GetEntries())), pay})
 			w.Stats["stream-appends"]++
+			if len(s.sent) > 1 {
+				w.sample("C16", func() any {
+					return map[string]any{"leader": n.id, "follower": to, "outstanding_appends": len(s.sent), "max_inflight_msgs": n.cfg.MaxInflight, "max_inflight_bytes": n.cfg.MaxInflightBytes, "entries_in_this_append": len(c.GetEntries()), "payload_bytes": pay, "max_size_per_msg": n.cfg.MaxSizePerMsg}
+				})
+			}
 			if len(s.sent) == n.cfg.MaxInflight {
 				w.Stats["stream-window-full"]++
 			}
@@ -144,6 +149,9 @@ func (w *World) monSnapshot(n *node, kind string, in *pb.Message, pre, post *raf
 		}
 	}
 	inConf := confOf(md.GetConfState()).Members()[n.id]
+	w.sample("C09", func() any {
+		return map[string]any{"node": n.id, "snapshot": []uint64{si, st}, "pre_commit": pre.Commit, "pre_last": pre.LastIndex, "point_already_in_log": matched, "node_in_snapshot_config": inConf, "installed": installed, "post_commit": post.Commit}
+	})
 	switch {
 	case si <= pre.Commit:
 		w.Stats["snap-ignored-stale"]++
@@ -378,6 +386,9 @@ func (w *World) monProposals(n *node, kind string, in *pb.Message, pre, post *ra
 			}
 			if kind != "propose" && kind != "proposecc" {
 				w.Stats["forwarded-proposals-appended"]++
+				w.sample("C20", func() any {
+					return map[string]any{"leader": n.id, "forwarded_by": in.GetFrom(), "entries": len(appended), "first_index": appended[0].Index, "first_payload": trunc(appended[0].Data)}
+				})
 			}
 		} else {
 			w.Stats["proposals-refused-at-leader"]++
